@@ -38,7 +38,7 @@ func genMethodStrings(rng *rand.Rand, names []string, n int) []string {
 	var pool []string
 	for _, nm := range append([]string{"org.varlink.service"}, names...) {
 		pool = append(pool, nm+".M", nm, nm+".", nm+"..M", "."+nm+".M", nm+".M.N", nm+"x.M", "x"+nm+".M", strings.ToUpper(nm)+".M", strings.ToLower(nm)+".M",
-			nm+".GetInfo", nm+".é", nm+". M", nm+" .M", nm+".\u0000", " "+nm+".M", nm+".M ", "\t"+nm+".M", nm+".M\n", "\u00a0"+nm+".M", nm+".M\u2003", "\r\n"+nm+".M\r\n")
+			nm+".GetInfo", nm+".é", nm+".M/x", nm+".x/y.z", nm+"/.M", nm+".M/", "a/b"+nm+".M", nm+". M", nm+" .M", nm+".\u0000", " "+nm+".M", nm+".M ", "\t"+nm+".M", nm+".M\n", "\u00a0"+nm+".M", nm+".M\u2003", "\r\n"+nm+".M\r\n")
 		if len(nm) > 1 {
 			pool = append(pool, nm[:len(nm)-1]+".M", nm[1:]+".M", nm[:len(nm)/2]+".M", nm[:len(nm)-1], nm[:len(nm)/2]+"."+nm[len(nm)/2:]+".M")
 		}
@@ -46,7 +46,7 @@ func genMethodStrings(rng *rand.Rand, names []string, n int) []string {
 			pool = append(pool, nm[:i]+".M", nm[i:]+".M", nm[:i]+nm[i+1:]+".M", strings.Replace(nm, ".", "..", 1)+".M")
 		}
 	}
-	pool = append(pool, "", ".", "..", "...", "M", ".M", "M.", "a.b.c.d.e.f.g.h", "org.varlink.service.GetInfo", "org.varlink.service.GetInterfaceDescription",
+	pool = append(pool, "", ".", "..", "...", "M", ".M", "M.", "/", "a.b/c", "a/b.c", "org.varlink.service.GetInfo/x", "org.varlink.service/.GetInfo", "a.b.c.d.e.f.g.h", "org.varlink.service.GetInfo", "org.varlink.service.GetInterfaceDescription",
 		"org.varlink.service.getinfo", "org.varlink.service.", "org.varlink.service..GetInfo", "org.varlink.service.GetInfo.", "Org.varlink.service.GetInfo",
 		strings.Repeat("a.", 3000)+"M", strings.Repeat("x", 20000), "é.ü.ß", "‮.M")
 	out := make([]string, n)
@@ -228,7 +228,7 @@ func replayC04(r *fw.Run, raw json.RawMessage) { replayRound(r, raw, "C04") }
 func init() {
 	fw.Register(&fw.Engine{
 		ID: "C04", Level: "exploration",
-		Rule: "a case = (set of 1..6 registered interface names drawn to be adversarial to each other: a.b / a.b.c / a.b.c.d / a.bc / A.b / a. / .a / a..b / near-misses of org.varlink.service / unicode / empty name; one connection of 10 (quick) or 20 (thorough) method strings: every registered name with .M, without method, with trailing/leading/doubled dots, with prefixes, suffixes, halves, case changes, one char more or less, unicode, NUL, 6000- and 20000-character names, org.varlink.service methods and near-misses; scripted / more / unscripted parameters), always followed by a GetInfo on the same connection (the connection must still be usable) and in a third of the cases by a frame that is not an object with a string method, followed by one more call that must never be dispatched. Oracle: the routing model written from the statement (split at the last '.', index <= 0 => InvalidParameter(method), org.varlink.service built in, exact table lookup, InterfaceNotFound otherwise): exactly the predicted reply per call, exactly the predicted dispatcher invocations (interface, method name, once), none for any other peer. distinct by hash of names+calls. Also: every third name set is registered in two steps on the same object (the later names are first called while unknown, then registered during a pause in serving, then called again); a third of the calls carry flag combinations; method strings with outer white space; frames without a method member right after a dispatched call; a registration attempt made while serving (refused) for names that are then called: InterfaceNotFound, no dispatch; handlers that answer with a standard error carrying the same strings the routing errors carry; every fourth name set is registered from goroutines released at the same instant (each name must then be listed once and routed).",
+		Rule: "a case = (set of 1..6 registered interface names drawn to be adversarial to each other: a.b / a.b.c / a.b.c.d / a.bc / A.b / a. / .a / a..b / near-misses of org.varlink.service / unicode / empty name; one connection of 10 (quick) or 20 (thorough) method strings: every registered name with .M, without method, with trailing/leading/doubled dots, with prefixes, suffixes, halves, slashes before and after the last dot, case changes, one char more or less, unicode, NUL, 6000- and 20000-character names, org.varlink.service methods and near-misses; scripted / more / unscripted parameters), always followed by a GetInfo on the same connection (the connection must still be usable) and in a third of the cases by a frame that is not an object with a string method, followed by one more call that must never be dispatched. Oracle: the routing model written from the statement (split at the last '.', index <= 0 => InvalidParameter(method), org.varlink.service built in, exact table lookup, InterfaceNotFound otherwise): exactly the predicted reply per call, exactly the predicted dispatcher invocations (interface, method name, once), none for any other peer. distinct by hash of names+calls. Also: every third name set is registered in two steps on the same object (the later names are first called while unknown, then registered during a pause in serving, then called again); a third of the calls carry flag combinations; method strings with outer white space; frames without a method member right after a dispatched call; a registration attempt made while serving (refused) for names that are then called: InterfaceNotFound, no dispatch; handlers that answer with a standard error carrying the same strings the routing errors carry; every fourth name set is registered from goroutines released at the same instant (each name must then be listed once and routed).",
 		Assumptions: []string{"interface names are compared as exact byte strings"},
 		Run:         runC04, Replay: replayC04, CrashIsViolation: true, MinEvals: 100,
 		QuickTimeout: 10 * time.Minute, ThoroughTimeout: 40 * time.Minute,
